@@ -193,7 +193,7 @@ func viaOperator(n, total int) bool {
 }
 
 func opSleep(w *agx.World, s sess, req, a, b uint32) {
-	w.Input("op", map[string]interface{}{"DemonID": s.NameID(), "CommandID": "11", "TaskID": fmt.Sprintf("%08x", req), "CommandLine": "sleep", "Arguments": fmt.Sprintf("%d;%d", a, b)})
+	w.Input(opUser(), map[string]interface{}{"DemonID": s.NameID(), "CommandID": "11", "TaskID": fmt.Sprintf("%08x", req), "CommandLine": "sleep", "Arguments": fmt.Sprintf("%d;%d", a, b)})
 }
 
 // pollExact: the first hop polls; every task of the reply is followed down the tree and the tasks
@@ -373,6 +373,9 @@ func scaleChildren(c Case, w *agx.World, chain []sess, side sess, tag string) *c
 	for _, id := range c.IDs {
 		taken[id] = true
 	}
+	if c.Cfg != nil {
+		taken[c.Cfg.TPID] = true
+	}
 	ids := newReqAlloc(c)
 	first := len(ns)
 	id := s.ChildBase
@@ -397,7 +400,7 @@ func scaleChildren(c Case, w *agx.World, chain []sess, side sess, tag string) *c
 		taken[id] = true
 		k, iv := keyFrom(byte(j*7 + 1))
 		iv[3] ^= byte(j >> 8)
-		ch := sess{ID: id, Key: k, IV: iv, Meta: agx.DefaultMeta(id)}
+		ch := sess{ID: id, Key: k, IV: iv, Meta: metaFor(c, id)}
 		init := ch.Meta.InitPackage(ch.ID, ch.Key, ch.IV)
 		body := (&demonref.Enc{}).Int32(demonref.PivotSmbCon).Int32(1).Bytes(init).B
 		p := chain[hop]
